@@ -3,8 +3,10 @@
 Call chains of depth 1..D over frame kinds {fn, method, initialiser, static method, named
 lambda, callback run by a native iterator, function of another module}; raise sites
 {raise Error(msg), raise with an inner error, raise of a user subclass, VM runtime error,
-native error}; two line layouts (one statement per line; comment lines inserted above every
-statement, which moves every line number); caught in every frame of the chain or not at
+native error}; three line layouts (one statement per line; comment lines inserted above every statement;
+noise in front of every statement: string literals with raw line breaks, list literals and
+interpolations spanning lines, blank lines), optionally a try with a non-matching catch
+clause around the call in an intermediate frame; caught in every frame of the chain or not at
 all. Uncaught: stderr traceback (frames innermost first with function and line, then
 "Class: message") and failing status. Caught: e.message, e.inner.message, the class, and
 every e.backTrace entry (frames from the raise to the catching frame). exit(n) family.
@@ -46,13 +48,15 @@ def handler(tag):
             ["for", "bt", ["get", e, "backTrace"], [["if", ["bin", "!=", inv(V("bt"), "slice", N(0), N(7)), S("native:")], [["print", [S("bt"), V("bt")]]], None]]]]
 
 
-def build(chain, site, catch_at):
+def build(chain, site, catch_at, nonmatch=None):
     """chain[0] is called from the script; chain[-1] contains the raise site. catch_at: index of the frame that catches (-1 = script, None = uncaught)"""
-    main = [["class", "MyErr", "Error", []]]
+    main = [["class", "MyErr", "Error", []], ["class", "OtherErr", "Error", []]]
     other = []
     n = len(chain)
 
     def wrap(k, body):
+        if nonmatch == k:
+            body = [["try", body, "nm", "OtherErr", [["print", [S("wrong handler")]]]], ["print", [S("not reached")]]]
         if catch_at == k:
             return [["try", body, "e", None, handler("caught%d" % k)], ["print", [S("after%d" % k)]]]
         return body
@@ -93,10 +97,10 @@ def build(chain, site, catch_at):
 calls = {}
 
 
-def scenario(chain, site, catch_at):
+def scenario(chain, site, catch_at, nonmatch=None):
     calls.clear()
     # functions of the other module can only call things defined in that module: keep `module` frames innermost-contiguous
-    main, other = build(chain, site, catch_at)
+    main, other = build(chain, site, catch_at, nonmatch)
     top = calls[0]
     if catch_at == -1:
         top = [["try", top, "e", None, handler("caught-1")], ["print", [S("after-1")]]]
@@ -104,7 +108,7 @@ def scenario(chain, site, catch_at):
     prog = []
     if other:
         prog.append(["import", "import self.other", {"path": ["self", "other"], "alias": None, "symbols": None}])
-        files["/v/other.lay"] = [["class", "MyErr", "Error", []]] + other
+        files["/v/other.lay"] = [["class", "MyErr", "Error", []], ["class", "OtherErr", "Error", []]] + other
     prog += main + [["print", [S("start")]]] + top + [["print", [S("end")]]]
     files["/v/main.lay"] = prog
     return files
@@ -178,8 +182,12 @@ class C18(Check):
                     for catch_at in [None, -1] + list(range(d)):
                         if catch_at is not None and catch_at >= 0 and chain[catch_at] == "module" and False:
                             continue
-                        for lay in ("min", "comments"):
+                        for lay in ("min", "comments", "noisy"):
                             yield ("chain", chain, site, catch_at, lay)
+                        # a try whose catch clause does NOT match sits around the call in one intermediate frame: the error passes it untouched
+                        if catch_at in (None, -1) and d >= 2:
+                            for nm in range(d - 1):
+                                yield ("chain", chain, site, catch_at, "min", nm)
         for n in EXITS:
             for ctx in EXIT_CTX:
                 yield ("exit", n, ctx)
@@ -187,7 +195,7 @@ class C18(Check):
     def describe(self, spec):
         if spec[0] == "exit":
             return "exit(%d) in %s" % (spec[1], spec[2])
-        return "chain=%s site=%s catch_at=%s layout=%s" % (list(spec[1]), spec[2], spec[3], spec[4])
+        return "chain=%s site=%s catch_at=%s layout=%s nonmatching_catch_in_frame=%s" % (list(spec[1]), spec[2], spec[3], spec[4], spec[5] if len(spec) > 5 else None)
 
     def build(self, spec):
         if spec[0] == "exit":
@@ -195,7 +203,7 @@ class C18(Check):
             src, lines = L.render(stmts)
             files_ast, srcs, spans = {"/v/main.lay": stmts}, {"/v/main.lay": src}, {}
         else:
-            files_ast = scenario(spec[1], spec[2], spec[3])
+            files_ast = scenario(spec[1], spec[2], spec[3], spec[5] if len(spec) > 5 else None)
             srcs, lines, spans = {}, {}, {}
             for p, st in files_ast.items():
                 src, ln, sp = L.render_spans(st, spec[4])
